@@ -15,3 +15,7 @@ type Ctx struct {
 
 // Registry maps property ids to rule sets.
 var Registry = map[string]func(*Ctx){}
+
+// NeedsWholeProgram lists the properties whose thorough tier loads dependencies with bodies
+// (whole-program SSA) to refine reachability with a VTA call graph.
+var NeedsWholeProgram = map[string]bool{"C01": true}
